@@ -303,6 +303,16 @@ func connopsBody(cfg connopsCfg, prop string) func() {
 		case "C10":
 			open := false
 			everOpen := false
+			// closing frames seen so far vs. subscriptions that really ended (unsubscribe callbacks):
+			// an unsubscribe push that ended nothing (Client.Unsubscribe sends it unconditionally) is
+			// its own class of finding
+			closes := 0
+			c10UnsubCB := 0
+			for _, e := range events {
+				if strings.HasPrefix(e, "A:unsubscribe:"+ch) {
+					c10UnsubCB++
+				}
+			}
 			for _, f := range act.t.frames {
 				r := f.Reply
 				switch {
@@ -310,10 +320,12 @@ func connopsBody(cfg connopsCfg, prop string) func() {
 					open, everOpen = true, true
 				case r.Unsubscribe != nil && r.Error == nil:
 					open = false
+					closes++
 				case r.Push != nil && r.Push.Channel == ch && r.Push.Subscribe != nil:
 					open, everOpen = true, true
 				case r.Push != nil && r.Push.Channel == ch && r.Push.Unsubscribe != nil:
 					open = false
+					closes++
 				case r.Push != nil && r.Push.Channel == ch && (r.Push.Pub != nil || r.Push.Join != nil || r.Push.Leave != nil):
 					if !open {
 						kind := "publication"
@@ -329,6 +341,9 @@ func connopsBody(cfg connopsCfg, prop string) func() {
 						when := "before-open"
 						if everOpen {
 							when = "after-close"
+						}
+						if everOpen && closes > c10UnsubCB && !closed {
+							when = "after-unsubscribe-push-that-ended-nothing"
 						}
 						vsched.Failf("push-outside-bracket:"+kind+":"+pos+":"+when+":"+strings.Split(connopsCtx(cfg), ":")[0], "%s push for %s outside a subscription bracket (%s): %s", kind, ch, when, all)
 					}
